@@ -200,6 +200,10 @@ class _ReStub:
     def compile(p, flags=0):
         return RePattern(p, flags)
 
+    @staticmethod
+    def sub(pattern, repl, string, count=0, flags=0):
+        return _re.sub(pattern, repl, string, count=count, flags=flags)
+
 
 _BINOPS = {
     ast.Add: operator.add, ast.Sub: operator.sub, ast.Mult: operator.mul,
@@ -263,6 +267,11 @@ _STDLIB_PURE = {   # side-effect-free stdlib helpers the repository imports by n
     ('itertools', 'zip_longest'): lambda *a, **k: list(_it.zip_longest(*a, **k)),
     ('functools', 'reduce'): _ft.reduce, ('functools', 'partial'): _ft.partial,
     ('operator', 'itemgetter'): operator.itemgetter,
+    ('collections', 'defaultdict'): collections.defaultdict,
+    ('xml.sax.saxutils', 'quoteattr'): __import__('xml.sax.saxutils', fromlist=['quoteattr']).quoteattr,
+    ('xml.sax.saxutils', 'escape'): __import__('xml.sax.saxutils', fromlist=['escape']).escape,
+    ('urllib.parse', 'quote'): __import__('urllib.parse', fromlist=['quote']).quote,
+    ('struct', 'pack'): __import__('struct').pack,
     ('operator', 'lt'): operator.lt, ('operator', 'gt'): operator.gt, ('operator', 'le'): operator.le,
     ('operator', 'ge'): operator.ge, ('operator', 'xor'): operator.xor,
 }
